@@ -26,6 +26,11 @@ NAME_SCHEMES = {
 }
 
 
+class NotObservable(Exception):
+    """an attribute named in the property anchors does not exist on this tree: the abstract state cannot be
+    projected; the scenario is counted as not observed (never a violation)"""
+
+
 class ConstructError(Exception):
     """the explainer (or its parts) could not be constructed for a scenario"""
 
@@ -282,6 +287,18 @@ class Projection:
         return sorted(out)
 
     def state(self):
+        try:
+            return self._state()
+        except AttributeError as e:
+            raise NotObservable(str(e)) from e
+
+    def raw(self):
+        try:
+            return self._raw()
+        except AttributeError as e:
+            raise NotObservable(str(e)) from e
+
+    def _state(self):
         ex = self.env["ex"]
         st = {"seen": int(ex.seen_samples),
               "imp": self.mv(ex._importance_trackers, True), "impn": int(ex._importance_trackers.N),
@@ -292,7 +309,7 @@ class Projection:
         st["margpred"] = sorted([[self.env["lab_id"](k), red(v)] for k, v in mp.items()]) if isinstance(mp, dict) else []
         return st
 
-    def raw(self):
+    def _raw(self):
         """exact python values, for the float twin comparison"""
         ex = self.env["ex"]
         return {"imp": dict(ex.importance_values), "var": dict(ex.variances),
@@ -387,6 +404,8 @@ def run_scenario(sc, tape_mode="log", script=None, keep_raw=False, provider=None
 
     def sink(ev):
         rec.order.append("d")
+        ev = dict(ev)
+        ev["imp"] = rec.in_imp          # inside which imputer call (0 = outside) the draw happened
         rec.draws.append(ev)
 
     trace = {"cls": sc.cls, "d": sc.d, "kind": "es" if sc.dynamic else "welford",
@@ -447,7 +466,7 @@ def run_scenario(sc, tape_mode="log", script=None, keep_raw=False, provider=None
                     "imputes": [dict(i) for i in rec.imputes], "order": list(rec.order),
                     "perms": [[(proj_perm_index(names, d["v"])) for d in rec.draws if d["kind"] == "perm"]][0],
                     "draws": [[d["kind"], d["range"] if d["range"] is not None else 0,
-                               d["v"] if isinstance(d["v"], int) else 0] for d in rec.draws if d["kind"] in ("uniform",)],
+                               d["v"] if isinstance(d["v"], int) else 0] for d in rec.draws if d["kind"] in ("uniform",) and d["imp"] > 0],
                     "stores": [dict(s) for s in rec.stores],
                     "rows": [[red(r[nm]) for nm in names] for r in (rows_before or [])],
                     "nrows": len(rows_before or []),
